@@ -24,7 +24,8 @@ Inductive case :=
 | CVC (inp : json) (out : option json)
 (* ParsePresentation -> MarshalJSON *)
 | CVP (inp : json) (out : option json)
-(* JWTClaims(minimize) of the parsed credential and the credential JSON decodeCredJWT rebuilds from them;
+(* JWTClaims(minimize) of the parsed credential; the credential re-parsed from the unsecured JWT of those claims
+   (decodeCredJWT: refineFromJWTClaims, then the ordinary parser) and serialised again;
    secs/fmt: the time conversions of the dates that occur (done by Go's time package) *)
 | CJWT (inp : json) (minimize : bool) (secs : list (string * Z)) (fmt : list (Z * string))
        (iss sub jti : string) (nbf iat exp : option Z) (vcclaim : json) (rebuilt : json)
@@ -44,12 +45,12 @@ Definition check_case (c : case) : bool :=
           | Some c =>
               String.eqb (j_iss c) iss && String.eqb (j_sub c) sub && String.eqb (j_jti c) jti &&
               ozeq (j_nbf c) nbf && ozeq (j_iat c) iat && ozeq (j_exp c) exp &&
-              jeq (JObj (j_vc c)) vcclaim && jeq (JObj (refine (assoc_s fmt) c)) rebuilt
+              jeq (JObj (j_vc c)) (f64j vcclaim) && ojeq (roundtrip_vc (JObj (refine (assoc_s fmt) c))) (Some rebuilt)
           | None => false
           end
       | None => false
       end
-  | CSVC typed inp out => jeq (JObj (service_roundtrip typed inp)) (JObj out)
+  | CSVC typed inp out => jeq (JObj (service_roundtrip (f64o typed) inp)) (f64j (JObj out))
   | CFP code key mc dec dk =>
       bytes_eqb (fp_bytes code key) mc &&
       match fp_decode mc, dec with
